@@ -13,7 +13,8 @@ EXTRA_MODULES = ("Sentinel.Lemmas.Chain", "Sentinel.Lemmas.ChainSim")
 RULE = ("1-4 real base.SlotChain objects per case assembled by Add*Slot from 0-9 (6 % of chains: 13-48) recording slots per kind, order values drawn from a "
         "small colliding pool incl. 0 and 2^32-1 (35 % of chains additionally get order 0 / MaxUint32 / MaxUint32-1 slots added to non-empty buckets, 35 % a ShouldWait(0 or >0) rule slot placed before or on the order of a blocking one); rule slots pass / return nil / ShouldWait / panic / block (fresh result, pooled "
         "ctx.RuleCheckResult, slot-owned reused result) with block types 0-255; prepare and rule slots may register exit handlers "
-        "(ok / error / panic); stat slots may panic in OnEntryPassed / OnEntryBlocked / OnCompleted; then 3-25 api.Entry calls "
+        "(ok / error / panic); rule results are produced by every public constructor / in-place reset family (see BLOCK_STYLES, PASSING in the module); "
+        "any slot may record ctx.SetError / ctx.SetPair without panicking (+e/+k/+ek, read back with `ctx <e> err|pair`); stat slots may panic in OnEntryPassed / OnEntryBlocked / OnCompleted; then 3-25 api.Entry calls "
         "with overlapping lifetimes, caller-registered exit handlers, exits in shuffled order incl. double exits, slots added to "
         "live chains, every kept *BlockError re-read after later traffic; slices: panic-free, block-heavy, panic-heavy, "
         "own-result aliasing hazard. non-trivial = a block error was re-read after at least one later entry reused a pooled context; "
@@ -29,31 +30,49 @@ ORDER_POOLS = [
 ]
 
 
+# every public way to produce a rule-check result:
+#   blocking: bf NewTokenResultBlockedWithCause | bc ctx.RuleCheckResult.ResetToBlockedWithCause (the built-in slots) |
+#             bo slot-owned result re-armed with ResetToBlockedWithCause | bn NewTokenResult(ResultStatusBlocked) (no option) |
+#             bt NewTokenResult(ResultStatusBlocked, WithBlockType, WithRule) | bb NewTokenResultBlocked(type) |
+#             bm NewTokenResultBlockedWithMessage(type, msg) |
+#             br / bs ctx.RuleCheckResult.ResetToPass() then .ResetToBlocked(type) / .ResetToBlockedWithMessage(type, msg)
+#   passing:  pass NewTokenResultPass() | pass1 NewTokenResult(ResultStatusPass) | nil | wait/wait0 NewTokenResultShouldWait(>0/0) |
+#             wait1 NewTokenResult(ResultStatusShouldWait)
+BLOCK_STYLES = ["bf", "bc", "bo", "bn", "bt", "bb", "bm", "br", "bs"]
+PASSING = ["pass", "pass", "pass1", "nil", "nil", "wait", "wait0", "wait1"]
+
+
+def gen_note(rng, prof):
+    """+e ctx.SetError(err), +k ctx.SetPair(key, id), +ek both — recorded without panicking, before the slot behaves"""
+    return rng.choice(["+e", "+e", "+k", "+ek"]) if rng.random() < prof.get("note", 0.12) else ""
+
+
 def gen_slot(rng, kind, sid, pool, prof):
     order = rng.choice(pool) if rng.random() < 0.9 else rng.randint(0, 4294967295)
     hook = ""
     if kind in "pr" and rng.random() < prof["hook"]:
         hook = ":" + rng.choices(["hok", "herr", "hpanic"], [5, 2, prof["hpanic"]])[0]
+    nt = gen_note(rng, prof)
     if kind == "p":
         beh = "panic" if rng.random() < prof["ppanic"] else "ok"
-        return f"p:{sid}:{order}:{beh}{hook}"
+        return f"p:{sid}:{order}:{beh}{nt}{hook}"
     if kind == "r":
         r = rng.random()
         if r < prof["block"]:
-            st = rng.choices(["bf", "bc", "bo"], [3, 4, prof["own"]])[0]
-            typ = rng.choice([0, 1, 2, 3, 4, 5, 5, 1, 2, 255, rng.randint(0, 255)])
+            st = rng.choices(BLOCK_STYLES, [3, 4, prof["own"], 2, 2, 2, 2, 1.5, 1.5])[0]
+            typ = 0 if st == "bn" else rng.choice([0, 1, 2, 3, 4, 5, 5, 1, 2, 255, rng.randint(0, 255)])
             beh = f"{st}{typ}"
         elif r < prof["block"] + prof["rpanic"]:
             beh = "panic"
         else:
-            beh = rng.choice(["pass", "pass", "nil", "nil", "wait", "wait0"])
-        return f"r:{sid}:{order}:{beh}{hook}"
+            beh = rng.choice(PASSING)
+        return f"r:{sid}:{order}:{beh}{nt}{hook}"
     r = rng.random()
     if r < prof["spanic"]:
         beh = rng.choice(["pp", "pb", "pc"])
     else:
         beh = "ok"
-    return f"s:{sid}:{order}:{beh}"
+    return f"s:{sid}:{order}:{beh}{nt}"
 
 
 PROFILES = {
@@ -63,11 +82,13 @@ PROFILES = {
     "panicky": dict(hook=0.25, hpanic=3, ppanic=0.12, block=0.3, rpanic=0.15, spanic=0.25, own=2),
     "hazard": dict(hook=0.1, hpanic=1, ppanic=0, block=0.6, rpanic=0, spanic=0.3, own=12),
     "mixed":  dict(hook=0.2, hpanic=1, ppanic=0.05, block=0.3, rpanic=0.07, spanic=0.1, own=3),
+    # slots that record errors / pairs in the context without panicking, around blockers (seeded C16-r3-3)
+    "notes":  dict(hook=0.1, hpanic=0, ppanic=0.01, block=0.4, rpanic=0.02, spanic=0.03, own=2, note=0.55),
 }
 
 
 def gen_case(rng, cid):
-    pname = rng.choices(list(PROFILES), [3, 3, 2, 2, 4])[0]
+    pname = rng.choices(list(PROFILES), [3, 3, 2, 2, 4, 3])[0]
     prof = PROFILES[pname]
     ops = []
     nid = [0]
@@ -113,9 +134,19 @@ def gen_case(rng, cid):
             # must not end the rule phase
             lo = rng.choice([0, 0, 1, MAXO])
             hi = rng.choice([lo, lo, MAXO, rng.randint(lo, MAXO)])
-            w = [f"r:{fresh()}:{lo}:{rng.choice(['wait', 'wait0'])}" for _ in range(rng.randint(1, 2))]
-            b = f"r:{fresh()}:{hi}:{rng.choice(['bf', 'bc', 'bo'])}{rng.choice([1, 2, 3, 4, 5])}"
+            w = [f"r:{fresh()}:{lo}:{rng.choice(['wait', 'wait0', 'wait1'])}" for _ in range(rng.randint(1, 2))]
+            b = f"r:{fresh()}:{hi}:{rng.choice(BLOCK_STYLES)}{rng.choice([1, 2, 3, 4, 5])}"
             seq = w + [b] if rng.random() < 0.7 or lo != hi else [b] + w
+            ops += [f"add {name} {x}" for x in seq]
+        if rng.random() < 0.3:
+            # a first blocker built by every constructor family, among them the option-less NewTokenResult(ResultStatusBlocked),
+            # with slots that merely record an error / a pair before it, on it and after it (stat slot)
+            st = rng.choice(["bn", "bn", "bt", "bb", "bm", "bf", "bc"])
+            seq = [f"r:{fresh()}:0:{rng.choice(PASSING)}{rng.choice(['+e', '+ek', '', '+k'])}",
+                   f"r:{fresh()}:0:{st}{0 if st == 'bn' else rng.choice([0, 1, 5, 255])}{rng.choice(['', '', '+e', '+ek'])}",
+                   f"s:{fresh()}:{rng.choice([0, MAXO])}:ok{rng.choice(['+e', '+k', '', '+ek'])}"]
+            if rng.random() < 0.4:
+                seq.insert(0, f"p:{fresh()}:0:ok{rng.choice(['+e', '+ek', '+k'])}")
             ops += [f"add {name} {x}" for x in seq]
         chains.append((name, pool))
     live, blocked, eid = [], [], 0
@@ -128,6 +159,8 @@ def gen_case(rng, cid):
             ops.append("log")
             if rng.random() < 0.7:
                 ops.append(f"ident {e}")
+            if rng.random() < (0.8 if pname == "notes" else 0.25):
+                ops.append(f"ctx {e} {rng.choice(['err', 'err', 'pair'])}")
             live.append(e)       # may be blocked: then whenexit/exit are out of sequence and are never generated (see below)
         elif r < 0.58 and live:
             ops.append(f"whenexit {rng.choice(live)} {fresh()} {rng.choices(['hok', 'herr', 'hpanic'], [5, 2, prof['hpanic']])[0]}")
@@ -141,7 +174,10 @@ def gen_case(rng, cid):
             name, pool = rng.choice(chains)
             ops.append(f"add {name} {gen_slot(rng, rng.choice('prs'), fresh(), pool, prof)}")
         elif eid:
-            ops.append(f"blockerr e{rng.randint(1, eid)}")
+            if rng.random() < 0.3:
+                ops.append(f"ctx e{rng.randint(1, eid)} {rng.choice(['err', 'pair'])}")
+            else:
+                ops.append(f"blockerr e{rng.randint(1, eid)}")
     rng.shuffle(live)
     for e in live:
         if rng.random() < 0.8:
@@ -164,6 +200,8 @@ def fix_sequence(ops, results):
             continue
         if t[0] == "blockerr" and results.get(t[1]) != "block":
             continue
+        if t[0] == "ctx" and t[1] not in results:
+            continue
         if t[0] == "log" and skip_log:
             skip_log = False
             continue
@@ -179,7 +217,7 @@ def verdicts(ops):
 
     def parse(tok):
         f = tok.split(":")
-        return f[0], int(f[2]), f[3]
+        return f[0], int(f[2]), f[3].split("+")[0]
 
     for o in ops:
         t = o.split()
@@ -194,7 +232,7 @@ def verdicts(ops):
             ss = sorted([x for x in sl if x[0] == "s"], key=lambda x: x[1])
             v = "pass"
             if not any(b == "panic" for _, _, b in ps):
-                stop = next((b for _, _, b in rs if b not in ("pass", "nil", "wait")), None)
+                stop = next((b for _, _, b in rs if b not in ("pass", "pass1", "nil", "wait", "wait0", "wait1")), None)
                 if stop is not None and stop != "panic" and not any(b == "pb" for _, _, b in ss):
                     v = "block"
             res[t[1]] = v
